@@ -9,6 +9,7 @@ CONSTANTS Families,   \* subset of {"eval", "order", "rep", "full", "opt"}
           BkMax,      \* integer breakpoints are drawn from 0..BkMax
           Nords,      \* orders explored
           SpreadSel,  \* "all": bkspread 1/2 and 2 besides 1 in the eval family; "none": only 1
+          RepLen,     \* the "rep" family takes breakpoint sequences of length 3..RepLen
           OrderLen,   \* the "order" family enumerates every sequence of 1..OrderLen points of its pool
           FullNords, FullExtra,  \* "full" family: orders and numbers of cells beyond the minimum
           Ns,         \* data sizes of the option sweeps
@@ -49,6 +50,9 @@ NoExp == [knots |-> <<>>, pts |-> <<>>]
 
 (* ---- family "eval": strictly increasing integer breakpoints, padded by the constructor ---- *)
 BkSets == {S \in SUBSET (0..BkMax) : Cardinality(S) \in 2..4}
+(* 32-bit bound of TLC: for orders 5 and 6 the padding (first spacing times nord-1) stays within 10 *)
+FirstGap(S) == MinOf(S \ {MinOf(S)}) - MinOf(S)
+Fits(nord, S) == nord <= 4 \/ FirstGap(S) * (nord - 1) <= 10
 EvalSeed(nord, S, spread) == [kind |-> "seed", fam |-> "eval", nord |-> nord, S |-> S, spread |-> spread]
 EvalStep ==
   /\ c.kind = "seed" /\ c.fam = "eval"
@@ -75,7 +79,7 @@ OrderStep ==
   /\ exp' = EvalExp(c')
 
 (* ---- family "rep": non-decreasing integer breakpoints with repeats (explicit bkpt) ---- *)
-RepBks == {s \in UNION {[1..n -> 0..3] : n \in 3..5} :
+RepBks == {s \in UNION {[1..n -> 0..3] : n \in 3..RepLen} :
              /\ \A k \in 1..(Len(s) - 1) : s[k] <= s[k + 1]
              /\ \E k \in 1..(Len(s) - 1) : s[k] = s[k + 1]
              /\ s[1] < s[Len(s)]
@@ -97,7 +101,7 @@ FullStep ==
   /\ c.kind = "seed" /\ c.fam = "full"
   /\ LET m == 2 * c.nord + c.e
      IN \E w \in [1..(m - 1) -> {1, 2}] :
-          /\ <<w[1], w[m - 1]>> = c.w1
+          /\ \A k \in 1..IMin(4, m - 1) : w[k] = c.w1[k]
           /\ LET ti == Tup([k \in 1..m |-> Cumul(w, k - 1)])
                  t == Ints(ti)
                  P == Pool(ti[c.nord], ti[m - c.nord + 1], c.nord)
@@ -111,7 +115,8 @@ Data(N, v) ==
     [] v = "shuf" -> Tup([k \in 1..N |-> I((k * (IF IGCD(5, N) = 1 THEN 5 ELSE 7) + 2) % N)])
     [] v = "clust" -> Tup([k \in 1..N |-> Q((k - 1) * (k - 1), 4)])
     [] v = "ties" -> Tup([k \in 1..N |-> I((k - 1) \div 2)])
-DataVariants(N) == {"grid", "rev", "shuf", "clust"} \cup (IF N >= 3 THEN {"ties"} ELSE {})
+    [] v = "toptie" -> Tup([k \in 1..N |-> IF k = N THEN I(N) ELSE IF k >= N - 3 THEN I(N - 4) ELSE I(k - 1)])
+DataVariants(N) == {"grid", "rev", "shuf", "clust"} \cup (IF N >= 3 THEN {"ties"} ELSE {}) \cup (IF N >= 5 THEN {"toptie"} ELSE {})
 OptSeed(N, v) == [kind |-> "seed", fam |-> "opt", N |-> N, v |-> v]
 OptCase(N, v, data, nord, spread, opt, arg) ==
   [kind |-> "opt", N |-> N, v |-> v, data |-> data, nord |-> nord, spread |-> spread, opt |-> opt, arg |-> arg]
@@ -137,19 +142,20 @@ OptStep ==
              /\ \E S \in SUBSET PlacedPool(lo, hi) : c' = OptCase(c.N, c.v, data, nord, One, "placed", QSeqOfSet(S))
           \/ /\ c.v \in {"grid", "shuf"}
              /\ \E bk \in ExplicitBks(lo, hi) : c' = OptCase(c.N, c.v, data, nord, One, "bkpt", bk)
-  /\ exp' = [knots |-> Knots(c'.data, c'.nord, c'.spread, c'.opt, c'.arg), pts |-> <<>>]
+  /\ exp' = [knots |-> Knots(c'.data, c'.nord, c'.spread, c'.opt, c'.arg), pts |-> <<>>,
+             exact |-> PinnedDown(c'.data, c'.opt), devs |-> DevsOf(c'.data, c'.opt, c'.arg)]
 
 RootStep ==
   /\ c = Root
   /\ \/ /\ "eval" \in Families
-        /\ \E nord \in Nords : \E S \in BkSets : \E spread \in ({One} \cup (IF nord <= 4 THEN Spreads ELSE {})) : c' = EvalSeed(nord, S, spread)
+        /\ \E nord \in Nords : \E S \in {Z \in BkSets : Fits(nord, Z)} : \E spread \in ({One} \cup (IF nord <= 4 THEN Spreads ELSE {})) : c' = EvalSeed(nord, S, spread)
      \/ /\ "order" \in Families
         /\ \E nord \in {1, 2, 4} \cap Nords : \E S \in OrderBk : \E len \in 1..OrderLen : \E first \in 1..5 :
              c' = OrderSeed(nord, S, len, first)
      \/ /\ "rep" \in Families
         /\ \E nord \in Nords : \E s \in RepBks : c' = RepSeed(nord, s)
      \/ /\ "full" \in Families
-        /\ \E nord \in FullNords : \E e \in FullExtra : \E w1 \in {1, 2} \X {1, 2} : c' = FullSeed(nord, e, w1)
+        /\ \E nord \in FullNords : \E e \in FullExtra : \E w1 \in [1..4 -> {1, 2}] : c' = FullSeed(nord, e, w1)
      \/ /\ "opt" \in Families
         /\ \E N \in Ns : \E v \in DataVariants(N) : c' = OptSeed(N, v)
   /\ exp' = NoExp
@@ -193,7 +199,7 @@ C08_RangeIsCovered == IsEval =>
                  /\ Len(exp.pts[p].cand) <= 2
                  /\ ~exp.pts[p].inr => exp.pts[p].cand = <<>>
 C08_DefinitionsAgree == (IsEval /\ c.nord \in AgreeNords /\ c.fam \in {"eval", "rep", "full"}) =>
-  \A p \in Pts : DefinitionsAgree(exp.knots, c.nord, c.P[p])
+  \A p \in {q \in Pts : c.nord <= 4 \/ q % 4 = 1} : DefinitionsAgree(exp.knots, c.nord, c.P[p])
 C08_Continuity == IsEval =>
   \A p \in Pts : Mult(exp.knots, c.P[p]) < c.nord =>
      \A k \in 1..Len(exp.pts[p].cand) : exp.pts[p].cand[k].vals = exp.pts[p].cand[1].vals
